@@ -1,3 +1,298 @@
-(* placeholder: theorems follow *)
-From CC Require Import Theory.Field Model.Network.
-Example C04_model_runs : True. Proof. exact I. Qed.
+(* C04 — linearity and superposition of sources.
+   "Scaling every independent source by a factor a scales every potential, voltage and current by a (and every
+   power by |a|^2), and the response to several sources equals the sum of the responses with each source acting
+   alone while the others are deactivated by the library's own source-zeroing operations (voltage sources become
+   their internal impedance or a short, current sources their internal admittance or an open).  A network whose
+   sources are all deactivated has the zero solution."
+   Statements only; every proof is [exact <lemma>] (Theory/Linearity.v).  Model: Model/Network.v and
+   Model/Transformers.v ([short_circuitify_voltage_sources], [open_circuitify_current_sources]).
+   Vocabulary (Theory/Linearity.v):
+     [scale_net a n]       n with v of every ZV element and i of every YI element multiplied by a;
+     [keep_only keep n]    bind (short_circuitify_voltage_sources n keep) (fun m => open_circuitify_current_sources m keep);
+     [partitions k1 k2 n]  every branch element of n with [is_active] is (by [elem_eqb]) in exactly one of k1, k2;
+     [CircuitSpecId n phi ji] = CircuitSpec n phi (fun b => ji (bid b))  — flows indexed by branch id;
+     [src e]               source term: opt0 (eI e) where eY e is finite, opt0 (eV e) where it is not;
+     [src_sum n n1 n2]     same zero, and position by position same terminals, id and eY, with src adding. *)
+From Coq Require Import List Bool ZArith NArith.
+From CC Require Import Theory.Field Theory.Complex Theory.Labels Model.Network Model.Transformers Theory.Spec
+  Theory.Mna Theory.MnaComplete Theory.Api Theory.Unique Theory.Linearity.
+Import ListNotations.
+
+(* ================= circuit-equation level (no matrices) ================= *)
+
+(* Scaling all sources of n by a maps solutions to solutions. *)
+Theorem C04_spec_scale : forall (K : fops) (KOK : fops_ok K) (a : K) (n : network K) (phi ji : label -> K),
+  CircuitSpecId n phi ji ->
+  CircuitSpecId (scale_net a n) (fun l => fmul K a (phi l)) (fun i => fmul K a (ji i)).
+Proof. exact spec_scale. Qed.
+Print Assumptions C04_spec_scale.
+
+(* If the sources of n are position by position the sum of those of n1 and n2, solutions add. *)
+Theorem C04_spec_add : forall (K : fops) (KOK : fops_ok K) (n n1 n2 : network K) (phi1 j1 phi2 j2 : label -> K),
+  src_sum n n1 n2 -> CircuitSpecId n1 phi1 j1 -> CircuitSpecId n2 phi2 j2 ->
+  CircuitSpecId n (fun l => fadd K (phi1 l) (phi2 l)) (fun i => fadd K (j1 i) (j2 i)).
+Proof. exact spec_add. Qed.
+Print Assumptions C04_spec_add.
+
+(* All source terms zero: the zero potentials and flows solve the circuit equations. *)
+Theorem C04_spec_zero : forall (K : fops) (KOK : fops_ok K) (n : network K),
+  (forall b, In b (branches n) -> src (el b) = f0 K) -> CircuitSpecId n (fun _ => f0 K) (fun _ => f0 K).
+Proof. exact spec_zero. Qed.
+Print Assumptions C04_spec_zero.
+
+(* The library's zeroing operations split the sources: two keep-lists that partition the active elements give
+   two networks whose sources add up to those of the original; an empty keep-list switches every source off. *)
+Theorem C04_keep_only_splits : forall (K : fops) (KOK : fops_ok K) (keep1 keep2 : list (elem K)) (n n1 n2 : network K),
+  partitions keep1 keep2 n -> keep_only keep1 n = Ok n1 -> keep_only keep2 n = Ok n2 -> src_sum n n1 n2.
+Proof. exact keep_only_src_sum. Qed.
+Print Assumptions C04_keep_only_splits.
+
+Theorem C04_keep_only_nil_off : forall (K : fops) (KOK : fops_ok K) (n n0 : network K),
+  keep_only [] n = Ok n0 -> forall b, In b (branches n0) -> src (el b) = f0 K.
+Proof. exact keep_only_nil_off. Qed.
+Print Assumptions C04_keep_only_nil_off.
+
+(* Uniqueness of the solution does not depend on the source values. *)
+Theorem C04_wellposed_scale : forall (K : fops) (KOK : fops_ok K) (a : K) (n : network K),
+  wf n -> WellPosed n -> WellPosed (scale_net a n).
+Proof. exact wp_scale. Qed.
+Print Assumptions C04_wellposed_scale.
+
+Theorem C04_wellposed_zeroed : forall (K : fops) (KOK : fops_ok K) (n n0 : network K),
+  wf n -> WellPosed n -> keep_only [] n = Ok n0 -> WellPosed n0.
+Proof. exact wp_zero. Qed.
+Print Assumptions C04_wellposed_zeroed.
+
+(* ================= model level: solution vectors of the MNA system ================= *)
+
+(* 1. Scaling.  x solves n, x' solves the scaled network: potentials and first->second flows of x' are a times
+   those of x (any a, including 0). *)
+Theorem C04_scale : forall (K : fops) (KOK : fops_ok K) (a : K) (n : network K) (x x' : list K),
+  wf n -> WellPosed n -> solves n x -> solves (scale_net a n) x' ->
+  (forall l, In l (node_labels n) -> phi_of (scale_net a n) x' l = fmul K a (phi_of n x l))
+  /\ (forall b, In b (branches n) ->
+        flow_of (scale_net a n) x' (scale_branch a b) = fmul K a (flow_of n x b)).
+Proof. exact lin_scale. Qed.
+Print Assumptions C04_scale.
+
+(* ... hence what the API reports: potentials, voltages and currents (in the library's reporting direction) scale
+   by a, powers by a * conj a = |a|^2. *)
+Theorem C04_scale_reported : forall (K : fops) (KOK : fops_ok K) (a : K) (n : network K) (x x' : list K),
+  wf n -> WellPosed n -> solves n x -> solves (scale_net a n) x' ->
+  (forall l, In l (node_labels n) ->
+     exists p, get_potential {| s_net := n; s_x := x |} l = Ok p
+            /\ get_potential {| s_net := scale_net a n; s_x := x' |} l = Ok (fmul K a p))
+  /\ (forall b, In b (branches n) ->
+     exists v i, get_voltage {| s_net := n; s_x := x |} (bid b) = Ok v
+              /\ get_current {| s_net := n; s_x := x |} (bid b) = Ok i
+              /\ get_power {| s_net := n; s_x := x |} (bid b) = Ok (fmul K v (fconj K i))
+              /\ get_voltage {| s_net := scale_net a n; s_x := x' |} (bid b) = Ok (fmul K a v)
+              /\ get_current {| s_net := scale_net a n; s_x := x' |} (bid b) = Ok (fmul K a i)
+              /\ get_power {| s_net := scale_net a n; s_x := x' |} (bid b)
+                 = Ok (fmul K (fmul K a (fconj K a)) (fmul K v (fconj K i)))).
+Proof. exact lin_scale_api. Qed.
+Print Assumptions C04_scale_reported.
+
+(* 2. All sources deactivated: the zero vector is a solution, and for a well-posed n every solution is zero. *)
+Theorem C04_zero_is_solution : forall (K : fops) (KOK : fops_ok K) (n n0 : network K),
+  wf n -> keep_only [] n = Ok n0 ->
+  CircuitSpec n0 (fun _ => f0 K) (fun _ => f0 K) /\ solves n0 (vec n0 (fun _ => f0 K) (fun _ => f0 K)).
+Proof. exact lin_zero_exists. Qed.
+Print Assumptions C04_zero_is_solution.
+
+Theorem C04_zero : forall (K : fops) (KOK : fops_ok K) (n n0 : network K) (x0 : list K),
+  wf n -> WellPosed n -> keep_only [] n = Ok n0 -> solves n0 x0 ->
+  (forall l, In l (node_labels n0) -> phi_of n0 x0 l = f0 K)
+  /\ (forall b, In b (branches n0) -> flow_of n0 x0 b = f0 K).
+Proof. exact lin_zero. Qed.
+Print Assumptions C04_zero.
+
+Theorem C04_zero_reported : forall (K : fops) (KOK : fops_ok K) (n n0 : network K) (x0 : list K),
+  wf n -> WellPosed n -> keep_only [] n = Ok n0 -> solves n0 x0 ->
+  let s0 := {| s_net := n0; s_x := x0 |} in
+  (forall l, In l (node_labels n0) -> get_potential s0 l = Ok (f0 K))
+  /\ (forall b, In b (branches n0) ->
+        get_voltage s0 (bid b) = Ok (f0 K) /\ get_current s0 (bid b) = Ok (f0 K) /\ get_power s0 (bid b) = Ok (f0 K)).
+Proof. exact lin_zero_api. Qed.
+Print Assumptions C04_zero_reported.
+
+(* 3. Superposition.  keep1, keep2 partition the active elements; n1, n2 are what the library's zeroing operations
+   return; then potentials add at every node and first->second flows add branch by branch (matched by id). *)
+Theorem C04_superpose : forall (K : fops) (KOK : fops_ok K) (n n1 n2 : network K) (keep1 keep2 : list (elem K))
+    (x x1 x2 : list K),
+  wf n -> WellPosed n -> partitions keep1 keep2 n ->
+  keep_only keep1 n = Ok n1 -> keep_only keep2 n = Ok n2 ->
+  solves n x -> solves n1 x1 -> solves n2 x2 ->
+  (forall l, In l (node_labels n) -> phi_of n x l = fadd K (phi_of n1 x1 l) (phi_of n2 x2 l))
+  /\ (forall b b1 b2, In b (branches n) -> In b1 (branches n1) -> In b2 (branches n2) ->
+        bid b1 = bid b -> bid b2 = bid b ->
+        flow_of n x b = fadd K (flow_of n1 x1 b1) (flow_of n2 x2 b2)).
+Proof. exact lin_superpose. Qed.
+Print Assumptions C04_superpose.
+
+(* ... as reported by the API for potentials and voltages.  (Reported *currents* of a lossy source that has been
+   zeroed change reference direction with its kind, so currents are stated as flows above.) *)
+Theorem C04_superpose_reported : forall (K : fops) (KOK : fops_ok K) (n n1 n2 : network K)
+    (keep1 keep2 : list (elem K)) (x x1 x2 : list K),
+  wf n -> WellPosed n -> partitions keep1 keep2 n ->
+  keep_only keep1 n = Ok n1 -> keep_only keep2 n = Ok n2 ->
+  solves n x -> solves n1 x1 -> solves n2 x2 ->
+  let s := {| s_net := n; s_x := x |} in
+  let s1 := {| s_net := n1; s_x := x1 |} in
+  let s2 := {| s_net := n2; s_x := x2 |} in
+  (forall l, In l (node_labels n) ->
+     exists p1 p2, get_potential s1 l = Ok p1 /\ get_potential s2 l = Ok p2 /\ get_potential s l = Ok (fadd K p1 p2))
+  /\ (forall id, In id (branch_ids n) ->
+     exists v1 v2, get_voltage s1 id = Ok v1 /\ get_voltage s2 id = Ok v2 /\ get_voltage s id = Ok (fadd K v1 v2)).
+Proof. exact lin_superpose_api. Qed.
+Print Assumptions C04_superpose_reported.
+
+(* Any number of blocks: every active element is kept by exactly one block; the response is the sum over the
+   blocks ([jv m j id] is j of the branch of m with that id). *)
+Theorem C04_superpose_blocks : forall (K : fops) (KOK : fops_ok K) (n : network K) (x : list K) (bl : list (block K)),
+  wf n -> WellPosed n -> solves n x ->
+  (forall t, In t bl -> keep_only (bk_keep t) n = Ok (bk_net t) /\ solves (bk_net t) (bk_sol t)) ->
+  (forall b, In b (branches n) -> is_active (el b) = true ->
+     length (filter (fun t => in_keep (el b) (bk_keep t)) bl) = 1%nat) ->
+  (forall l, In l (node_labels n) -> phi_of n x l = sumF (fun t => phi_of (bk_net t) (bk_sol t) l) bl)
+  /\ (forall b, In b (branches n) ->
+        flow_of n x b = sumF (fun t => jv (bk_net t) (flow_of (bk_net t) (bk_sol t)) (bid b)) bl).
+Proof. exact lin_superpose_blocks. Qed.
+Print Assumptions C04_superpose_blocks.
+
+(* ================= non-vacuity: a concrete network over the Gaussian rationals ================= *)
+(* ideal voltage source V, linear voltage source L, ideal current source I, linear current source J,
+   a resistor, an impedance and an admittance, on nodes '0' (reference) .. '3' *)
+Definition L4 (z : Z) : label := [Z.to_N z].
+Definition srcV : elem CQ := voltage_source (L4 86) (cq 5 1 1 1) (cq 0 1 0 1).
+Definition srcL : elem CQ := voltage_source (L4 76) (cq 7 1 0 1) (cq 2 1 1 1).
+Definition srcI : elem CQ := current_source (L4 73) (cq (-2) 1 1 2) (cq 0 1 0 1).
+Definition srcJ : elem CQ := current_source (L4 74) (cq 1 1 (-1) 3) (cq 1 2 0 1).
+Definition c04_net : network CQ :=
+  {| zero := L4 48;
+     branches := [ Build_branch (L4 49) (L4 48) srcV;
+                   Build_branch (L4 49) (L4 50) (resistor (L4 82) (cq 2 1 0 1));
+                   Build_branch (L4 50) (L4 51) srcL;
+                   Build_branch (L4 51) (L4 48) (impedance (L4 90) (cq 3 1 4 1));
+                   Build_branch (L4 48) (L4 50) srcI;
+                   Build_branch (L4 51) (L4 48) srcJ;
+                   Build_branch (L4 50) (L4 48) (admittance (L4 89) (cq 1 2 (-1) 4)) ] |}.
+Definition c04_a : CQ := cq 2 1 (-3) 1.
+Definition keepA : list (elem CQ) := [srcV; srcJ].
+Definition keepB : list (elem CQ) := [srcL; srcI; resistor (L4 82) (cq 2 1 0 1)].   (* passive elements may be listed *)
+
+Example C04_example_wf : wfb c04_net = true.
+Proof. vm_compute. reflexivity. Qed.
+Example C04_example_solved : solvedb c04_net = true.
+Proof. vm_compute. reflexivity. Qed.
+Example C04_example_unique : uniqb c04_net = true.
+Proof. vm_compute. reflexivity. Qed.
+Example C04_example_wellposed : WellPosed c04_net.
+Proof. exact (wellposed_check CQ CQ_ok c04_net C04_example_wf C04_example_solved C04_example_unique). Qed.
+
+(* all four sources are active; in the library's classification V is only a voltage source, I only a current
+   source, the lossy L and J are both *)
+Example C04_example_classes :
+  map (fun e => (is_voltage_source e, is_current_source e)) [srcV; srcL; srcI; srcJ]
+  = [(true, false); (true, true); (false, true); (true, true)].
+Proof. vm_compute. reflexivity. Qed.
+
+(* the decompositions the library computes, and that they (and the scaled network) are solved *)
+Example C04_example_partition : partitionsb keepA keepB c04_net = true.
+Proof. vm_compute. reflexivity. Qed.
+Example C04_example_keepA : is_ok (keep_only keepA c04_net) = true.
+Proof. vm_compute. reflexivity. Qed.
+Example C04_example_keepB : is_ok (keep_only keepB c04_net) = true.
+Proof. vm_compute. reflexivity. Qed.
+Example C04_example_keep0 : is_ok (keep_only [] c04_net) = true.
+Proof. vm_compute. reflexivity. Qed.
+Example C04_example_solvedA : wfb (kp_net keepA c04_net) = true /\ solvedb (kp_net keepA c04_net) = true.
+Proof. split; vm_compute; reflexivity. Qed.
+Example C04_example_solvedB : wfb (kp_net keepB c04_net) = true /\ solvedb (kp_net keepB c04_net) = true.
+Proof. split; vm_compute; reflexivity. Qed.
+Example C04_example_solved0 : wfb (kp_net [] c04_net) = true /\ solvedb (kp_net [] c04_net) = true.
+Proof. split; vm_compute; reflexivity. Qed.
+Example C04_example_solved_scaled : wfb (scale_net c04_a c04_net) = true /\ solvedb (scale_net c04_a c04_net) = true.
+Proof. split; vm_compute; reflexivity. Qed.
+
+(* what became of the four sources in the two halves (kinds: 1 impedance, 2 admittance, 6/7 sources); the lossy
+   current source J counts as a voltage source (V = I/Y) and is therefore zeroed to its impedance 1/Y *)
+Example C04_example_kinds :
+  map (fun b => ekind (el b)) (branches (kp_net keepA c04_net)) = [6; 3; 1; 1; 2; 7; 2]%N
+  /\ map (fun b => ekind (el b)) (branches (kp_net keepB c04_net)) = [1; 3; 6; 1; 7; 1; 2]%N
+  /\ map (fun b => ekind (el b)) (branches (kp_net [] c04_net)) = [1; 3; 1; 1; 2; 1; 2]%N.
+Proof. vm_compute. repeat split. Qed.
+
+(* the hypotheses of the circuit-equation level theorems *)
+Example C04_example_src_sum : src_sum c04_net (kp_net keepA c04_net) (kp_net keepB c04_net).
+Proof. exact (keep_only_src_sum CQ CQ_ok keepA keepB c04_net _ _
+          (partitionsb_ok CQ keepA keepB c04_net C04_example_partition)
+          (keep_only_is_ok CQ keepA c04_net C04_example_keepA) (keep_only_is_ok CQ keepB c04_net C04_example_keepB)). Qed.
+Example C04_example_spec_id : exists phi1 j1 phi2 j2,
+  CircuitSpecId (kp_net keepA c04_net) phi1 j1 /\ CircuitSpecId (kp_net keepB c04_net) phi2 j2.
+Proof.
+  destruct (solvedb_ok CQ_ok _ (proj1 C04_example_solvedA) (proj2 C04_example_solvedA)) as [s1 [_ [W1 [_ C1]]]].
+  destruct (solvedb_ok CQ_ok _ (proj1 C04_example_solvedB) (proj2 C04_example_solvedB)) as [s2 [_ [W2 [_ C2]]]].
+  eexists. eexists. eexists. eexists. split; [exact (spec_to_id CQ _ _ _ W1 C1)|exact (spec_to_id CQ _ _ _ W2 C2)]. Qed.
+
+(* the hypotheses of C04_scale / C04_scale_reported *)
+Example C04_example_scale_hyps : exists x x',
+  wf c04_net /\ WellPosed c04_net /\ solves c04_net x /\ solves (scale_net c04_a c04_net) x'.
+Proof.
+  destruct (solvedb_ok CQ_ok _ C04_example_wf C04_example_solved) as [s [_ [WF [S _]]]].
+  destruct (solvedb_ok CQ_ok _ (proj1 C04_example_solved_scaled) (proj2 C04_example_solved_scaled)) as [s' [_ [_ [S' _]]]].
+  exists (s_x s), (s_x s'). split; [exact WF|]. split; [exact C04_example_wellposed|]. split; assumption. Qed.
+
+(* the hypotheses of C04_zero / C04_zero_reported *)
+Example C04_example_zero_hyps : exists n0 x0,
+  wf c04_net /\ WellPosed c04_net /\ keep_only [] c04_net = Ok n0 /\ solves n0 x0.
+Proof.
+  destruct (solvedb_ok CQ_ok _ C04_example_wf C04_example_solved) as [s [_ [WF _]]].
+  destruct (solvedb_ok CQ_ok _ (proj1 C04_example_solved0) (proj2 C04_example_solved0)) as [s0 [_ [_ [S0 _]]]].
+  exists (kp_net [] c04_net), (s_x s0). split; [exact WF|]. split; [exact C04_example_wellposed|].
+  split; [exact (keep_only_is_ok CQ [] c04_net C04_example_keep0)|exact S0]. Qed.
+
+(* the hypotheses of C04_superpose / C04_superpose_reported *)
+Example C04_example_superpose_hyps : exists n1 n2 x x1 x2,
+  wf c04_net /\ WellPosed c04_net /\ partitions keepA keepB c04_net
+  /\ keep_only keepA c04_net = Ok n1 /\ keep_only keepB c04_net = Ok n2
+  /\ solves c04_net x /\ solves n1 x1 /\ solves n2 x2.
+Proof.
+  destruct (solvedb_ok CQ_ok _ C04_example_wf C04_example_solved) as [s [_ [WF [S _]]]].
+  destruct (solvedb_ok CQ_ok _ (proj1 C04_example_solvedA) (proj2 C04_example_solvedA)) as [s1 [_ [_ [S1 _]]]].
+  destruct (solvedb_ok CQ_ok _ (proj1 C04_example_solvedB) (proj2 C04_example_solvedB)) as [s2 [_ [_ [S2 _]]]].
+  exists (kp_net keepA c04_net), (kp_net keepB c04_net), (s_x s), (s_x s1), (s_x s2).
+  split; [exact WF|]. split; [exact C04_example_wellposed|].
+  split; [exact (partitionsb_ok CQ keepA keepB c04_net C04_example_partition)|].
+  split; [exact (keep_only_is_ok CQ keepA c04_net C04_example_keepA)|].
+  split; [exact (keep_only_is_ok CQ keepB c04_net C04_example_keepB)|].
+  split; [exact S|]. split; assumption. Qed.
+
+(* the hypotheses of C04_superpose_blocks with one block per source *)
+Definition c04_keeps : list (list (elem CQ)) := [[srcV]; [srcL]; [srcI]; [srcJ]].
+Example C04_example_blocks_solved :
+  forallb (fun k => is_ok (keep_only k c04_net) && wfb (kp_net k c04_net) && solvedb (kp_net k c04_net)) c04_keeps = true.
+Proof. vm_compute. reflexivity. Qed.
+Example C04_example_blocks_hyps : exists x (bl : list (block CQ)),
+  map bk_keep bl = c04_keeps
+  /\ wf c04_net /\ WellPosed c04_net /\ solves c04_net x
+  /\ (forall t, In t bl -> keep_only (bk_keep t) c04_net = Ok (bk_net t) /\ solves (bk_net t) (bk_sol t))
+  /\ (forall b, In b (branches c04_net) -> is_active (el b) = true ->
+        length (filter (fun t => in_keep (el b) (bk_keep t)) bl) = 1%nat).
+Proof.
+  destruct (solvedb_ok CQ_ok _ C04_example_wf C04_example_solved) as [s [_ [WF [S _]]]].
+  assert (H : forall k, In k c04_keeps -> exists xk,
+             keep_only k c04_net = Ok (kp_net k c04_net) /\ solves (kp_net k c04_net) xk).
+  { intros k Hk. pose proof C04_example_blocks_solved as F. rewrite forallb_forall in F. specialize (F k Hk).
+    apply andb_true_iff in F. destruct F as [F F3]. apply andb_true_iff in F. destruct F as [F1 F2].
+    destruct (solvedb_ok CQ_ok _ F2 F3) as [sk [_ [_ [Sk _]]]]. exists (s_x sk).
+    split; [exact (keep_only_is_ok CQ k c04_net F1)|exact Sk]. }
+  destruct (H [srcV]) as [x1 [K1 S1]]; [simpl; tauto|].
+  destruct (H [srcL]) as [x2 [K2 S2]]; [simpl; tauto|].
+  destruct (H [srcI]) as [x3 [K3 S3]]; [simpl; tauto|].
+  destruct (H [srcJ]) as [x4 [K4 S4]]; [simpl; tauto|].
+  exists (s_x s), [ Build_block [srcV] (kp_net [srcV] c04_net) x1; Build_block [srcL] (kp_net [srcL] c04_net) x2;
+                    Build_block [srcI] (kp_net [srcI] c04_net) x3; Build_block [srcJ] (kp_net [srcJ] c04_net) x4 ].
+  split; [reflexivity|]. split; [exact WF|]. split; [exact C04_example_wellposed|]. split; [exact S|]. split.
+  - intros t [<-|[<-|[<-|[<-|[]]]]]; simpl; split; assumption.
+  - apply blocksb_ok. vm_compute. reflexivity. Qed.
